@@ -118,6 +118,10 @@ func (d *driver) behaviour(steps int, r int) {
 	d.root = d.lg.Add(0, d.run, "Init", M{"mode": d.mode}, M{"ok": true}, M{"cfg": f.Config(), "m": st0["m"], "x": st0["x"]})
 	d.node = d.root
 	poolAssets := [][2]uint64{{1, 1}, {1, 2}, {1, 3}, {2, 4}, {2, 2}, {2, 3}}
+	if f.V.LowT1 { // keep pool 1 short of its first transit asset: cross-pool borrows from pool 1 bridge through the second one
+		poolAssets = [][2]uint64{{1, 1}, {1, 1}, {1, 3}, {2, 4}, {2, 2}, {2, 3}}
+	}
+	killLeft := 0
 	pairsOf := func(asset, pool uint64) []uint64 {
 		m, _ := k.GetAssetToPair(e.Ctx, asset, pool)
 		return m.PairID
@@ -145,7 +149,16 @@ func (d *driver) behaviour(steps int, r int) {
 				myB = append(myB, b)
 			}
 		}
-		w := []int{10, 5, 8, 3, 14, 4, 5, 8, 8, 3, 2, 3, 2, 12, 4, 3, 5}
+		if killLeft > 0 { // the circuit breaker stays on for a few steps only
+			killLeft--
+			if killLeft == 0 {
+				d.do("Kill", M{"on": false})
+			}
+		}
+		w := []int{10, 5, 8, 3, 14, 4, 5, 8, 8, 3, 2, 3, 2, 12, 4, 5, 7, 1}
+		if f.V.LowT1 {
+			w[4], w[5] = 20, 8
+		}
 		if len(myL) == 0 {
 			w[1], w[2], w[3], w[4] = 0, 0, 0, 0
 		}
@@ -266,30 +279,90 @@ func (d *driver) behaviour(steps int, r int) {
 				np = 40
 			}
 			d.do("Price", M{"asset": int64(a.ID), "p": np})
-		case 15: // V2 liquidation request for a borrow (internal keeper message)
+		case 15: // V2 liquidation: move prices just below / just above the position's threshold, then the message or the sweep
 			b := borrows[rng.Intn(len(borrows))]
-			if rng.Intn(2) == 0 { // make it unsafe first: the collateral asset loses value
-				p := d.pair(b.PairID)
-				cur := d.price(p.AssetIn) / PU
-				np := cur / int64(2+rng.Intn(3))
-				if np < 1 {
-					np = 1
-					d.do("Price", M{"asset": int64(p.AssetOut), "p": int64(10 + rng.Intn(30))})
-				}
-				d.do("Price", M{"asset": int64(p.AssetIn), "p": np})
+			switch rng.Intn(5) {
+			case 0, 1:
+				d.aim(b, 1.0, 1.12) // just unsafe
+			case 2:
+				d.aim(b, 0.90, 1.0) // just safe (inside the band between LTV and threshold)
+			case 3:
+				d.aim(b, 1.0, 3.0)
 			}
-			d.do("Liquidate", M{"u": "kp", "b": int64(b.ID)})
+			if rng.Intn(3) == 0 { // the per-block sweep (small batch sizes): a burst of blocks
+				for n := 2 + rng.Intn(5); n > 0; n-- {
+					if r := d.do("Tick", M{"dt": int64(6)}); getb(r, "panic") {
+						return
+					}
+				}
+			} else {
+				d.do("Liquidate", M{"u": "kp", "b": int64(b.ID)})
+			}
 		case 16: // bid on a running auction (full or partial)
 			aucs := e.App.NewaucKeeper.GetAuctions(e.Ctx)
 			if len(aucs) == 0 {
 				continue
 			}
 			a := aucs[rng.Intn(len(aucs))]
-			amt := i64(a.DebtToken.Amount)
-			if rng.Intn(4) == 0 {
-				amt = pos(amt / 2)
-			}
+			left := i64(a.DebtToken.Amount)
+			amt := pos([]int64{left, left, left + 1 + int64(rng.Intn(50)), left / 2, left / 3, left - 1, 1, 2, left * 3}[rng.Intn(9)])
 			d.do("Bid", M{"u": "kp", "auc": int64(a.AuctionId), "da": f.assetOfDenom(a.DebtToken.Denom), "amt": amt})
+		case 17: // circuit breaker on for a few steps
+			if killLeft == 0 {
+				d.do("Kill", M{"on": true})
+				killLeft = 2 + rng.Intn(4)
+				if len(borrows) > 0 && rng.Intn(2) == 0 {
+					b := borrows[rng.Intn(len(borrows))]
+					d.aim(b, 1.0, 3.0)
+					if rng.Intn(2) == 0 {
+						d.do("Liquidate", M{"u": "kp", "b": int64(b.ID)})
+					} else {
+						d.do("Tick", M{"dt": int64(6)})
+					}
+				}
+			}
 		}
+	}
+}
+
+// aim moves the oracle prices of the position's collateral and debt assets so that debt value / collateral value lands in
+// (lo, hi] times the liquidation threshold that applies to the position (plain, e-mode, or the product with the bridged asset's).
+func (d *driver) aim(b lendtypes.BorrowAsset, lo, hi float64) {
+	k := d.e.App.LendKeeper
+	p := d.pair(b.PairID)
+	rp, _ := k.GetAssetRatesParams(d.e.Ctx, p.AssetIn)
+	thr := rp.LiquidationThreshold.MustFloat64()
+	if p.IsEModeEnabled {
+		thr = rp.ELiquidationThreshold.MustFloat64()
+	}
+	if b.BridgedAssetAmount.Amount.IsPositive() {
+		if ba := d.f.assetOfDenom(b.BridgedAssetAmount.Denom); ba != 0 {
+			brp, _ := k.GetAssetRatesParams(d.e.Ctx, uint64(ba))
+			thr *= brp.LiquidationThreshold.MustFloat64()
+		}
+	}
+	debt := float64(i64(b.AmountOut.Amount)+i64(b.InterestAccumulated.TruncateInt())) / float64(d.asset(p.AssetOut).Dec)
+	col := float64(i64(b.AmountIn.Amount)) / float64(d.asset(p.AssetIn).Dec)
+	if col <= 0 || debt <= 0 || thr <= 0 {
+		return
+	}
+	var cands [][2]int64
+	for pi := int64(1); pi <= 40; pi++ {
+		for po := int64(1); po <= 40; po++ {
+			r := debt * float64(po) / (col * float64(pi)) / thr
+			if r > lo && r <= hi {
+				cands = append(cands, [2]int64{pi, po})
+			}
+		}
+	}
+	if len(cands) == 0 {
+		return
+	}
+	c := cands[d.rng.Intn(len(cands))]
+	if d.price(p.AssetIn)/PU != c[0] {
+		d.do("Price", M{"asset": int64(p.AssetIn), "p": c[0]})
+	}
+	if d.price(p.AssetOut)/PU != c[1] {
+		d.do("Price", M{"asset": int64(p.AssetOut), "p": c[1]})
 	}
 }
